@@ -531,36 +531,130 @@ theorem eraseN_append (a b : Toks) : eraseN a.length (a ++ b) = some b := by
   | nil => rfl
   | cons t a ih => simpa [eraseN] using ih
 
-/-- a written unary action: `[~] op operand` -/
+/-- what is written behind an operator -/
+inductive ActKind
+  | unary (x : Toks)        -- one expression operand
+  | nullary                 -- nothing (`^^>`, `|n>`, `<<<`)
+  | wrapper (w : Toks)      -- `>>>` (as the three tokens `w`)
+
+/-- a written action: `[~] op` followed by an operand, by nothing, or by `>>>` -/
 structure SrcAct where
   row : DetRow
   comb : Comb
-  ctor : Comb
+  ctor : Comb               -- the constructor the member gets
   op : Toks
   deferred : Bool
   tildeJoint : Bool
-  x : Toks
+  kind : ActKind
+
+def SrcAct.body (a : SrcAct) : Toks :=
+  match a.kind with
+  | .unary x => x
+  | .nullary => []
+  | .wrapper w => w
+
+def SrcAct.isWrapper (a : SrcAct) : Bool :=
+  match a.kind with
+  | .wrapper _ => true
+  | _ => false
 
 def renderActs : List SrcAct → Toks
   | [] => []
-  | a :: as => (if a.deferred then [TT.punct '~' a.tildeJoint] else []) ++ (a.op ++ (a.x ++ renderActs as))
+  | a :: as => (if a.deferred then [TT.punct '~' a.tildeJoint] else []) ++ (a.op ++ (a.body ++ renderActs as))
+
+def SrcAct.mv (a : SrcAct) : Move := if a.isWrapper then .wrap else if a.comb == .unwrap then .unwrap else .none
+
+def SrcAct.grp (a : SrcAct) : NextGroup := ⟨a.comb, a.deferred, a.mv⟩
+
+/-- what is left for the member of `a` itself once the previous unit has consumed `[~] op [>>>]` -/
+def SrcAct.tail (a : SrcAct) (rest : Toks) : Toks :=
+  match a.kind with
+  | .unary x => x ++ rest
+  | .nullary => rest
+  | .wrapper _ => rest
+
+/-- the unit in front of `acts` ends with: which action follows, and what is left for it -/
+def nextOf : List SrcAct → Option NextGroup × Toks
+  | [] => (none, [])
+  | a :: as => (some a.grp, a.tail (renderActs as))
 
 /-- an operand followed by `after`: no `~`, complete, no top-level split point -/
 def OperandOK (o : Oracle) (x after : Toks) : Prop :=
   (∀ t ∈ x, isTilde t = false) ∧ o.valid .expr x = true ∧
   ∀ p s, x = p ++ s → s ≠ [] → stopHere o .expr false p (s ++ after) = false
 
-/-- every action is a unary expression operator recognised where it stands, with an operand that has no split point -/
+/-- the operator of the first action is recognised where it stands, and `>>>` follows it exactly when written -/
+def HeadOK : List SrcAct → Prop
+  | [] => True
+  | a :: as =>
+    a.row.comb = some a.comb ∧ a.op.length = a.row.len ∧
+    Tables.deferredDet.check (a.op ++ (a.body ++ renderActs as)) = false ∧
+    firstMatch (a.op ++ (a.body ++ renderActs as)) = some a.row ∧
+    Tables.wrapperDet.check (a.body ++ renderActs as) = a.isWrapper ∧
+    (a.isWrapper = true → a.comb ≠ .unwrap ∧ canBeWrapper a.comb = true ∧ a.body.length = Tables.wrapperDet.len)
+
+/-- every action is well-formed: arity and operand match the operator -/
 def ActsOK (o : Oracle) : List SrcAct → Prop
   | [] => True
   | a :: as =>
-    a.row.comb = some a.comb ∧ arityOf a.comb = some ⟨a.ctor, 1, false, .expr⟩ ∧ a.op.length = a.row.len ∧
-    Tables.deferredDet.check (a.op ++ (a.x ++ renderActs as)) = false ∧
-    firstMatch (a.op ++ (a.x ++ renderActs as)) = some a.row ∧
-    Tables.wrapperDet.check (a.x ++ renderActs as) = false ∧
-    OperandOK o a.x (renderActs as) ∧ ActsOK o as
+    HeadOK (a :: as) ∧
+    (match a.kind with
+      | .unary x => arityOf a.comb = some ⟨a.ctor, 1, false, .expr⟩ ∧ OperandOK o x (renderActs as)
+      | .nullary => ∃ k, arityOf a.comb = some ⟨a.ctor, 0, true, k⟩
+      | .wrapper _ => wrapperCtorOf a.comb = some a.ctor) ∧
+    ActsOK o as
 
-def expMember (o : Oracle) (a : SrcAct) : Member := ⟨a.ctor, a.deferred, .none, [mkOperand o .expr a.x]⟩
+/-- the `>>>`/`<<<` balance never goes below zero (it restarts at every `~`) -/
+def BalanceOK : Int → List SrcAct → Prop
+  | _, [] => True
+  | w, a :: as =>
+    0 ≤ (if a.deferred then 0 else w) + mvDelta a.mv ∧
+    BalanceOK ((if a.deferred then 0 else w) + mvDelta a.mv) as
+
+def expMember (o : Oracle) (a : SrcAct) : Member :=
+  match a.kind with
+  | .unary x => ⟨a.ctor, a.deferred, a.mv, [mkOperand o .expr x]⟩
+  | .nullary => ⟨a.ctor, a.deferred, a.mv, []⟩
+  | .wrapper _ => ⟨a.ctor, a.deferred, .wrap, [⟨.expr, Tables.wrapperPlaceholder⟩]⟩
+
+theorem ActsOK.head {o : Oracle} {acts : List SrcAct} (h : ActsOK o acts) : HeadOK acts := by
+  cases acts with
+  | nil => trivial
+  | cons a as => exact h.1
+
+/-- a unit (operand `x`, or nothing) followed by the actions `acts`: `parse_until` returns exactly it, the first action
+    as what follows — with its `~` and `>>>` flags — and leaves what belongs to that action -/
+theorem parseUntil_acts (o : Oracle) (syn : Syn) (ae : Bool) (x : Toks) (acts : List SrcAct)
+    (hx : ∀ t ∈ x, isTilde t = false) (hvalid : o.valid syn x = true)
+    (hnosplit : ∀ p s, x = p ++ s → s ≠ [] → stopHere o syn ae p (s ++ renderActs acts) = false)
+    (hhead : HeadOK acts) :
+    parseUntil o syn ae (x ++ renderActs acts) = .ok ⟨x, (nextOf acts).1, (nextOf acts).2⟩ := by
+  cases acts with
+  | nil =>
+    simp only [renderActs, List.append_nil, nextOf]
+    exact parseUntil_end o syn ae x hx hvalid (fun p s h1 h2 => by simpa [renderActs] using hnosplit p s h1 h2)
+  | cons a as =>
+    obtain ⟨h1, h2, h3, h4, h5, h6⟩ := hhead
+    have herase : eraseN a.row.len (a.op ++ (a.body ++ renderActs as)) = some (a.body ++ renderActs as) := by
+      rw [← h2]; exact eraseN_append _ _
+    have hpu := parseUntil_roundtrip o syn ae x (a.op ++ (a.body ++ renderActs as)) (a.body ++ renderActs as) a.row a.comb
+      a.deferred a.tildeJoint a.isWrapper hx h3 h4 h1 hvalid
+      (fun p s e1 e2 => by simpa [renderActs] using hnosplit p s e1 e2) herase h5
+      (fun hw => ⟨(h6 hw).1, (h6 hw).2.1⟩)
+    have hin : x ++ renderActs (a :: as) =
+        x ++ ((if a.deferred then [TT.punct '~' a.tildeJoint] else []) ++ (a.op ++ (a.body ++ renderActs as))) := rfl
+    rw [hin, hpu]
+    simp only [nextOf, SrcAct.grp, SrcAct.mv]
+    congr 2
+    -- what is left
+    cases hk : a.kind with
+    | unary y => simp [SrcAct.isWrapper, SrcAct.tail, SrcAct.body, hk]
+    | nullary => simp [SrcAct.isWrapper, SrcAct.tail, SrcAct.body, hk]
+    | wrapper w =>
+      have hw : a.isWrapper = true := by simp [SrcAct.isWrapper, hk]
+      have hlen := (h6 hw).2.2
+      simp only [SrcAct.body, hk] at hlen
+      simp [SrcAct.isWrapper, SrcAct.tail, SrcAct.body, hk, ← hlen]
 
 theorem unary_not_unwrap (c ctor : Comb) (h : arityOf c = some ⟨ctor, 1, false, .expr⟩) : (c == Comb.unwrap) = false := by
   cases c <;> try rfl
@@ -568,71 +662,123 @@ theorem unary_not_unwrap (c ctor : Comb) (h : arityOf c = some ⟨ctor, 1, false
   rw [this] at h
   cases h
 
-/-- one member with a unary operator, given what `parse_until` returns for its operand -/
-theorem parseGroup_unary (o : Oracle) (c ctor : Comb) (d : Bool) (input x rest : Toks) (nx : Option NextGroup)
-    (har : arityOf c = some ⟨ctor, 1, false, .expr⟩)
-    (hpu : parseUntil o .expr false input = .ok ⟨x, nx, rest⟩) :
-    parseGroup o ⟨c, d, .none⟩ input = .ok ((⟨ctor, d, .none, [mkOperand o .expr x]⟩, [x]), nx, rest) := by
-  simp [parseGroup, har, parseNOrEmpty, parseUnits, hpu]
+/-- the member of the action whose group is `g`, parsed from what `nextOf` left for it -/
+theorem parseGroup_act (o : Oracle) (a : SrcAct) (as : List SrcAct) (hok : ActsOK o (a :: as)) :
+    ∃ raws, parseGroup o a.grp (a.tail (renderActs as)) =
+      .ok ((expMember o a, raws), (nextOf as).1, (nextOf as).2) ∧ (∀ r, raws = [r] → a.kind = .unary r) := by
+  obtain ⟨hhead, hkind, hrest⟩ := hok
+  have hnext := ActsOK.head hrest
+  cases hk : a.kind with
+  | unary x =>
+    rw [hk] at hkind
+    obtain ⟨har, hx1, hx2, hx3⟩ := hkind
+    have hpu := parseUntil_acts o .expr false x as hx1 hx2 hx3 hnext
+    have hnw : a.isWrapper = false := by simp [SrcAct.isWrapper, hk]
+    refine ⟨[x], ?_, fun r hr => by simp at hr; rw [hr]⟩
+    simp [parseGroup, SrcAct.grp, SrcAct.mv, hnw, unary_not_unwrap a.comb a.ctor har, har, parseNOrEmpty, parseUnits,
+      SrcAct.tail, hk, hpu, expMember]
+  | nullary =>
+    rw [hk] at hkind
+    obtain ⟨k, har⟩ := hkind
+    have hpu := parseUntil_acts o .empty true [] as (by simp) rfl (fun p s h1 h2 => by
+      have : p = [] ∧ s = [] := by simpa using h1.symm
+      exact absurd this.2 h2) hnext
+    simp only [List.nil_append] at hpu
+    have hnw : a.isWrapper = false := by simp [SrcAct.isWrapper, hk]
+    refine ⟨[], ?_, fun r hr => by simp at hr⟩
+    by_cases hu : (a.comb == Comb.unwrap) = true
+    · simp [parseGroup, SrcAct.grp, SrcAct.mv, hnw, hu, har, parseNOrEmpty, SrcAct.tail, hk, hpu, expMember]
+    · simp only [Bool.not_eq_true] at hu
+      simp [parseGroup, SrcAct.grp, SrcAct.mv, hnw, hu, har, parseNOrEmpty, SrcAct.tail, hk, hpu, expMember]
+  | wrapper w =>
+    rw [hk] at hkind
+    have hpu := parseUntil_acts o .empty true [] as (by simp) rfl (fun p s h1 h2 => by
+      have : p = [] ∧ s = [] := by simpa using h1.symm
+      exact absurd this.2 h2) hnext
+    simp only [List.nil_append] at hpu
+    have hw : a.isWrapper = true := by simp [SrcAct.isWrapper, hk]
+    refine ⟨[], ?_, fun r hr => by simp at hr⟩
+    simp [parseGroup, SrcAct.grp, SrcAct.mv, hw, hkind, SrcAct.tail, hk, hpu, expMember]
 
-/-- **Parse ∘ render = id for chains of unary operators.**  An initial value followed by any number of actions
-    `[~] op operand` — `op` any of the operators that take one expression operand, each recognised where it stands, every
-    operand complete and without a top-level split point: the chain builder returns exactly these members, in order,
-    each with the `~` flag it was written with, and consumes the whole input. -/
-theorem chain_roundtrip_unary_partial (o : Oracle) (acts : List SrcAct) :
-    ∀ (c ctor : Comb) (d : Bool) (x : Toks) (members : List Member) (pat : Option BranchPat) (isFirst : Bool) (fuel : Nat),
-      arityOf c = some ⟨ctor, 1, false, .expr⟩ → OperandOK o x (renderActs acts) → ActsOK o acts →
-      (isFirst = true → o.letSplit x = .notLet) → acts.length + 1 ≤ fuel →
-      buildChain o fuel ⟨c, d, .none⟩ (x ++ renderActs acts) members pat 0 isFirst =
-        .ok (⟨pat, members ++ (⟨ctor, d, .none, [mkOperand o .expr x]⟩ :: acts.map (expMember o))⟩, []) := by
+/-- **Parse ∘ render = id for chains.**  Any number of actions `[~] op operand`, `[~] op` (operand-less operators and
+    `<<<`) and `[~] op >>>`, each operator recognised where it stands, every operand complete and without a top-level
+    split point, `>>>`/`<<<` balanced within each step: the chain builder returns exactly these members, in order, each with
+    the `~` flag and the `>>>`/`<<<` role it was written with, and consumes the whole input.  (Operators with several
+    operands or type operands — `^@`, `?^@`, `=>[] T`, `<-> A,B,C,D` — are not covered: partial.) -/
+theorem chain_roundtrip_partial (o : Oracle) (acts : List SrcAct) :
+    ∀ (a : SrcAct) (members : List Member) (pat : Option BranchPat) (w : Int) (fuel : Nat),
+      ActsOK o (a :: acts) → BalanceOK w acts → acts.length + 1 ≤ fuel →
+      buildChain o fuel a.grp (a.tail (renderActs acts)) members pat w false =
+        .ok (⟨pat, members ++ (expMember o a :: acts.map (expMember o))⟩, []) := by
   induction acts with
   | nil =>
-    intro c ctor d x members pat isFirst fuel har hx _ hlet hf
+    intro a members pat w fuel hok _ hf
     obtain ⟨fuel, rfl⟩ : ∃ f, fuel = f + 1 := ⟨fuel - 1, by simp at hf; omega⟩
-    obtain ⟨hx1, hx2, hx3⟩ := hx
-    have hpu := parseUntil_end o .expr false x hx1 hx2 (fun p s h1 h2 => by simpa [renderActs] using hx3 p s h1 h2)
-    have hpg := parseGroup_unary o c ctor d x x [] none har hpu
-    simp only [renderActs, List.append_nil]
+    obtain ⟨raws, hpg, _⟩ := parseGroup_act o a [] hok
     unfold buildChain
     rw [hpg]
-    cases isFirst with
-    | false => simp [mkOperand, eatComma]
-    | true => simp [hlet rfl, mkOperand, eatComma]
-  | cons a as ih =>
-    intro c ctor d x members pat isFirst fuel har hx hacts hlet hf
+    simp only [nextOf, Bool.false_eq_true, if_false]
+    cases hk : a.kind <;> simp [expMember, hk, mkOperand, eatComma]
+  | cons b bs ih =>
+    intro a members pat w fuel hok hbal hf
     obtain ⟨fuel, rfl⟩ : ∃ f, fuel = f + 1 := ⟨fuel - 1, by simp at hf; omega⟩
-    obtain ⟨hx1, hx2, hx3⟩ := hx
-    obtain ⟨ha1, ha2, ha3, ha4, ha5, ha6, ha7, ha8⟩ := hacts
-    have herase : eraseN a.row.len (a.op ++ (a.x ++ renderActs as)) = some (a.x ++ renderActs as) := by
-      rw [← ha3]; exact eraseN_append _ _
-    have hpu := parseUntil_roundtrip o .expr false x (a.op ++ (a.x ++ renderActs as)) (a.x ++ renderActs as) a.row a.comb
-      a.deferred a.tildeJoint false hx1 ha4 ha5 ha1 hx2
-      (fun p s h1 h2 => by simpa [renderActs] using hx3 p s h1 h2) herase ha6 (by simp)
-    simp only [Bool.false_eq_true, if_false, unary_not_unwrap a.comb a.ctor ha2] at hpu
-    have hinput : x ++ renderActs (a :: as) =
-        x ++ ((if a.deferred then [TT.punct '~' a.tildeJoint] else []) ++ (a.op ++ (a.x ++ renderActs as))) := rfl
-    have hpg := parseGroup_unary o c ctor d _ x _ _ har hpu
-    rw [hinput]
+    obtain ⟨raws, hpg, _⟩ := parseGroup_act o a (b :: bs) hok
+    obtain ⟨hb1, hb2⟩ := hbal
+    have hrec := ih b (members ++ [expMember o a]) pat _ fuel hok.2.2 hb2 (by simp at hf ⊢; omega)
     unfold buildChain
     rw [hpg]
-    have hrec := ih a.comb a.ctor a.deferred a.x (members ++ [⟨ctor, d, .none, [mkOperand o .expr x]⟩]) pat false fuel
-      ha2 ha7 ha8 (by simp) (by simp at hf ⊢; omega)
-    have hw : (if a.deferred = true then (0 : Int) else 0) = 0 := by split <;> rfl
-    cases isFirst with
-    | false =>
-      simp only [Bool.false_eq_true, if_false]
-      simp [hw, hrec, expMember, List.append_assoc]
-    | true =>
-      simp only [if_true, hlet rfl]
-      simp [hw, hrec, expMember, List.append_assoc]
+    simp only [nextOf, Bool.false_eq_true, if_false]
+    have hgd : b.grp.deferred = b.deferred := rfl
+    have hgm : b.grp.mv = b.mv := rfl
+    have hnot : ¬ ((if b.deferred = true then (0 : Int) else w) + mvDelta b.mv < 0) := by omega
+    simp only [hgd, hgm, hnot, if_false]
+    rw [hrec]
+    simp [List.append_assoc]
 
-/-- the whole branch: initial value, then the actions -/
-theorem branch_roundtrip_unary_partial (o : Oracle) (x0 : Toks) (acts : List SrcAct)
-    (hx0 : OperandOK o x0 (renderActs acts)) (hlet : o.letSplit x0 = .notLet) (hacts : ActsOK o acts) :
-    buildChain o (acts.length + 1) ⟨.initial, false, .none⟩ (x0 ++ renderActs acts) [] none 0 true =
+/-- the whole branch: an initial value without `let`, then the actions -/
+theorem branch_roundtrip_partial (o : Oracle) (x0 : Toks) (acts : List SrcAct)
+    (hx0 : OperandOK o x0 (renderActs acts)) (hlet : o.letSplit x0 = .notLet) (hacts : ActsOK o acts)
+    (hbal : BalanceOK 0 acts) :
+    buildChain o (acts.length + 2) ⟨.initial, false, .none⟩ (x0 ++ renderActs acts) [] none 0 true =
       .ok (⟨none, ⟨.initial, false, .none, [mkOperand o .expr x0]⟩ :: acts.map (expMember o)⟩, []) := by
-  have := chain_roundtrip_unary_partial o acts .initial .initial false x0 [] none true (acts.length + 1)
-    (by decide) hx0 hacts (fun _ => hlet) (Nat.le_refl _)
-  simpa using this
+  obtain ⟨hx1, hx2, hx3⟩ := hx0
+  have hpu := parseUntil_acts o .expr false x0 acts hx1 hx2 hx3 (ActsOK.head hacts)
+  have hpg : parseGroup o ⟨.initial, false, .none⟩ (x0 ++ renderActs acts) =
+      .ok ((⟨.initial, false, .none, [mkOperand o .expr x0]⟩, [x0]), (nextOf acts).1, (nextOf acts).2) := by
+    have har : arityOf Comb.initial = some ⟨.initial, 1, false, .expr⟩ := by decide
+    simp [parseGroup, har, parseNOrEmpty, parseUnits, hpu]
+  unfold buildChain
+  rw [hpg]
+  simp only [if_true, hlet]
+  cases acts with
+  | nil => simp [nextOf, mkOperand, eatComma]
+  | cons a as =>
+    obtain ⟨hb1, hb2⟩ := hbal
+    have hrec := chain_roundtrip_partial o as a [⟨.initial, false, .none, [mkOperand o .expr x0]⟩] none _ (as.length + 1 + 1)
+      hacts hb2 (by omega)
+    simp only [nextOf, List.nil_append]
+    have hgd : a.grp.deferred = a.deferred := rfl
+    have hgm : a.grp.mv = a.mv := rfl
+    have hnot : ¬ ((if a.deferred = true then (0 : Int) else 0) + mvDelta a.mv < 0) := by omega
+    simp only [hgd, hgm, hnot, if_false]
+    simp only [List.length_cons] at hrec ⊢
+    rw [hrec]
+    simp
+
+/-- the model on a concrete chain with `~`, `>>>` and `<<<` (an oracle that accepts single tokens as expressions):
+    `a |> f ~=> >>> <<<` -/
+example :
+    let o : Oracle := { validExpr := fun ts => ts.length == 1, validType := fun _ => false, isBlock := fun _ => false,
+                        letSplit := fun _ => .notLet, reprintExpr := id, reprintType := id, exprPrefix := fun _ => none,
+                        pathPrefix := fun _ => none, litBool := fun _ => none }
+    let toks : Toks := [.ident "a", .punct '|' true, .punct '>' false, .ident "f", .punct '~' true, .punct '=' true,
+                        .punct '>' false, .punct '>' true, .punct '>' true, .punct '>' false,
+                        .punct '<' true, .punct '<' true, .punct '<' false]
+    (buildChain o 10 ⟨.initial, false, .none⟩ toks [] none 0 true).toOption.map
+        (fun r => (r.1.members.map (fun m => (m.ctor.name, m.deferred, m.mv == .wrap, m.mv == .unwrap, m.ops.length)), r.2.length)) =
+      some ([("Initial", false, false, false, 1), ("Map", false, false, false, 1), ("AndThen", true, true, false, 1),
+             ("UNWRAP", false, false, true, 0)], 0) := by
+  intro o toks
+  rfl
 
 end JoinModel.Props.C14
